@@ -102,6 +102,8 @@ func main() {
 		runC07(*seed, *n)
 	case "c08":
 		runC08(*seed, *n, *long)
+	case "c08shape": // (a part of c08 on its own)
+		runC08TraceShapes(*seed)
 	case "c09":
 		runC09(*seed, *n, *long)
 	case "c20":
@@ -157,6 +159,11 @@ func isWrite(st *hx.Step) bool {
 }
 
 func runC07(seed int64, n int) {
+	// first of all the shape of every writing call: one statement or one transaction
+	traceShapes(seed, "c07-not-atomic", true)
+	if len(sum.Failures) > 0 {
+		return
+	}
 	covered := map[string]int{}
 	// the operation under test: a write step (single operation at DB level, or a caller-managed
 	// transaction that stops at the first error); everything before it builds the pre-state.
